@@ -7,6 +7,7 @@
 import SnowProofs.Lemmas.Snowing2D
 import SnowProofs.Lemmas.Stencil1D
 import SnowProofs.Lemmas.Snowing2DRun
+import SnowProofs.Lemmas.RunBounds
 import SnowModel.Flake
 import Mathlib.Analysis.SpecialFunctions.Sqrt
 import Mathlib.Tactic.NormNum
@@ -387,20 +388,39 @@ theorem nuc0D_eq_direct (c : Flake.Consts ℝ) (q : SnowIn ℝ) (T : ℝ)
 
 /-! ### non-vacuity -/
 
+/-- the default primary constants of the Snowflake model (snowConfig_default.yaml) -/
+noncomputable def yDef : Flake.Primary ℝ :=
+  { T_eq := 0, b := 29.3, rho_l := 1000, height := 0.01, length := 0.01, width := 0.01, cp_s := 1240,
+    solid_fraction := 0.05, cp_w := 4187, cp_i := 2108, k_f := 1.853, M_s := 0.3423, Dh := 333550 }
+
+/-- the constant relations assumed by `nuc0D_eq_direct` hold between Snowflake's derived constants
+(`Flake.deriveConsts yDef`, the model of `calculateDerived`) and the default `SnowIn` `qDef` -/
+theorem nuc0D_eq_direct_hyps :
+    (Flake.deriveConsts yDef).T_eq = RunBounds.qDef.const.T_eq
+    ∧ (Flake.deriveConsts yDef).depression = RunBounds.qDef.const.depression
+    ∧ Flake.gammaDirect (Flake.deriveConsts yDef)
+        = RunBounds.qDef.const.Dh * RunBounds.qDef.const.mass_water
+          / (RunBounds.qDef.const.cp_solution * RunBounds.qDef.const.mass)
+    ∧ 0 < Flake.gammaDirect (Flake.deriveConsts yDef)
+    ∧ 0 < RunBounds.qDef.const.depression ∧ 0 < RunBounds.qDef.const.mass_water
+    ∧ RunBounds.qDef.const.depression = RunBounds.qDef.const.k_f / RunBounds.qDef.const.M_s
+        * (RunBounds.qDef.const.mass_solute / RunBounds.qDef.const.mass_water) := by
+  refine ⟨?_, ?_, ?_, ?_, ?_, ?_, ?_⟩ <;>
+    simp only [Flake.deriveConsts, Flake.gammaDirect, yDef, RunBounds.qDef, one_real] <;> norm_num
+
 /-- the hypotheses of `radial_uniform_preserved` hold for a concrete non-trivial case (the
-3 × 3 witness grid, shelf configuration, a non-constant column profile), and those of
-`direct_core` for the default sucrose solution at 10 K supercooling -/
+3 × 3 witness grid, shelf configuration, the uniform field, zero top flux), and those of
+`nuc0D_eq_direct` for the default solution (`nuc0D_eq_direct_hyps`) -/
 theorem nonvacuous :
     (pW.config ≠ Config.jacket ∧ 2 ≤ pW.Nz ∧ 2 ≤ pW.Nr) ∧
-    -- `hU`, `hq` of `radial_uniform_preserved`: the uniform 3 × 3 real field 10, zero top flux
     (∀ i j, i < 3 → j < 3 → rd 3 (Array.replicate 9 (10 : ℝ)) i j = (fun _ => (10 : ℝ)) i) ∧
     (∀ j, j < 3 → (fun _ : Nat => (0 : ℝ)) j = 0) ∧
-    (∃ s : ℝ, 0 ≤ s ∧ s * s = ((10 : ℝ) - 78) ^ 2 + 4 * 78 * (3 / 10)) := by
-  refine ⟨⟨by decide, by decide, by decide⟩, ?_, fun _ _ => rfl, ?_⟩
-  · intro i j hi hj
-    have h : i * 3 + j < 9 := by omega
-    simp [rd, Array.getD, h]
-  · exact ⟨Real.sqrt (((10 : ℝ) - 78) ^ 2 + 4 * 78 * (3 / 10)), Real.sqrt_nonneg _,
-      Real.mul_self_sqrt (by norm_num)⟩
+    ((Flake.deriveConsts yDef).T_eq = RunBounds.qDef.const.T_eq
+      ∧ 0 < Flake.gammaDirect (Flake.deriveConsts yDef)) := by
+  refine ⟨⟨by decide, by decide, by decide⟩, ?_, fun _ _ => rfl, nuc0D_eq_direct_hyps.1,
+    nuc0D_eq_direct_hyps.2.2.2.1⟩
+  intro i j hi hj
+  have h : i * 3 + j < 9 := by omega
+  simp [rd, Array.getD, h]
 
 end Snow.C15
